@@ -1,4 +1,5 @@
 import argparse
+import copy
 import grp
 import itertools
 import locale
@@ -244,6 +245,10 @@ class _InstallWrapper(IpcCommand):
 
     def __init__(self, *args, **kwargs):
         super().__init__(*args, **kwargs)
+        # a parser of its own for every helper: the class level one is shared by
+        # all of them, and set_defaults() on it left every helper with the
+        # defaults of whichever helper was constructed last
+        self.parser = copy.deepcopy(self.parser)
         self.parser.set_defaults(
             insoptions=self.insoptions_default, diroptions=self.diroptions_default
         )
